@@ -405,10 +405,13 @@ Inductive case :=
 | CDsa (x : var) (vr : variant) (m : mode) (a : assignment) (cs : list rel) (cur_val : Z)
        (violated draw_ok : bool) (pick : nat) (o : res (option Z))
 | CDsaTuto (x : var) (m : mode) (a : assignment) (cs : list rel) (cur_val : Z)
-       (draw_ok : bool) (o : res (option Z)).
+       (draw_ok : bool) (o : res (option Z))
+| CMulti (l : list case).   (* successive cycles of one computation, each checked as a step *)
 
-Definition check_case (c : case) : bool :=
+Fixpoint check_case (c : case) : bool :=
   match c with
+  | CMulti l => (fix all (l : list case) : bool :=
+                   match l with [] => true | c :: r => check_case c && all r end) l
   | CSetList r vals c o => res_eqb obs_rel_eqb (x <- set_list r vals c ;; Ok (rel_obs x)) o
   | CSetDict r a c o => res_eqb obs_rel_eqb (x <- set_dict r a c ;; Ok (rel_obs x)) o
   | CGetList r vals o => res_eqb ec_same (get_list r vals) o
